@@ -141,18 +141,44 @@ def build(spec):
         mask = np.r_[ones[0].ravel('F'), ones[1].ravel('F'), ones[2].ravel('F')]
         data[np.flatnonzero(mask)[:1]] = 10.0 ** spec.get('src_exp', 0)
     sfield = emg3d.Field(grid, data.astype(complex if cplx else float), frequency=freq)
-    # independent coefficients
-    sval = 2j * np.pi * freq if cplx else -freq
+    return grid, model, sfield, indep_coeffs(model, hs, freq)
+
+
+def indep_coeffs(model, hs, freq):
+    """Checker-side (eta_x, eta_y, eta_z), zeta from the Model's CURRENT property arrays (read through
+    the public getters at the time of the call -- not from emg3d's VolumeModel, and not from the arrays
+    the model was built from: the model may have been edited in place since)."""
+    import scipy.constants as sc
+    if model.map.name != 'Conductivity':
+        raise ValueError('checker-side coefficients expect a conductivity model')
+    sval = 2j * np.pi * freq if freq > 0 else -freq
     smu0 = sval * sc.mu_0
     vol = np.multiply.outer(np.multiply.outer(hs[0], hs[1]), hs[2])
+    ep = None if model.epsilon_r is None else np.array(model.epsilon_r, float)
+    mu = None if model.mu_r is None else np.array(model.mu_r, float)
 
     def eta(c):
+        c = np.array(c, float)
         return -smu0 * vol * (c + sval * sc.epsilon_0 * ep) if ep is not None else -smu0 * vol * c
-    etx = eta(cx)
-    ety = eta(cy) if cy is not None else etx
-    etz = eta(cz) if cz is not None else etx
+    etx = eta(model.property_x)
+    ety = eta(model.property_y) if model.property_y is not None else etx
+    etz = eta(model.property_z) if model.property_z is not None else etx
     zeta = vol / mu if mu is not None else vol
-    return grid, model, sfield, ((etx, ety, etz), zeta, hs)
+    return ((etx, ety, etz), zeta, hs)
+
+
+def inplace_edit(model, ed):
+    """Edit the model IN PLACE through the array returned by a property getter (no setter involved)."""
+    arr = getattr(model, ed['prop'])
+    sl = tuple(slice(a, b) for a, b in ed['box'])
+    if ed.get('factor') is not None:
+        arr[sl] *= ed['factor']
+    else:
+        arr[sl] = ed['value']
+
+
+def default_box(shape):
+    return [[n // 4, max(n // 4 + 1, (3 * n + 3) // 4)] for n in shape]
 
 
 def indep_resnorm(ind, sfield, efield):
@@ -275,6 +301,22 @@ def run_impl(spec, cfg, mode, stub=None):
         sfield.field[np.flatnonzero(sfield.field)[:1]] = np.nan
     if mode == 'nofreq':
         sfield = emg3d.Field(grid, sfield.field.copy())
+    rs = spec.get('resolve')
+    prev = None
+    if rs:
+        # history on ONE Model object: solve, edit the model in place through a getter view, then the
+        # observed solve (same frequency) follows.  The checker's coefficients are rebuilt afterwards.
+        pre_kw = dict(sslsolver=False, semicoarsening=True, linerelaxation=True, tol=1e-7, maxit=100, verb=-1)
+        if rs.get('pre_ssl'):
+            pre_kw['sslsolver'] = rs['pre_ssl']
+        if mode not in ('nofreq',):
+            with np.errstate(all='ignore'):
+                prev = emg3d.solve(model, emg3d.Field(grid, sfield.field.copy(), frequency=spec['freq']), **pre_kw)
+        inplace_edit(model, rs)
+        ind = indep_coeffs(model, ind[2], spec['freq'])
+        R.ind = ind
+    if mode == 'prev':
+        supplied = emg3d.Field(grid, prev.field.copy(), frequency=spec['freq'])
     if mode == 'good_nonpec':
         supplied = nonpec_good_field(spec, cfg, grid, model, sfield, ind)
     if mode in ('good', 'bad', 'wrongdtype', 'zero_supplied'):
@@ -669,6 +711,20 @@ def property_check(R):
     cfg, spec = R.cfg, R.spec
     base = dict(spec=spec, cfg={k: (val if not isinstance(val, bool) else bool(val)) for k, val in cfg.items()},
                 mode=R.mode, exit_message=v.exit_message)
+    hit = _property_check(R, base)
+    if hit and spec.get('resolve'):
+        hit['signature'] += RESOLVE_TAG
+        hit['history'] = ('same Model object: solve; in-place edit through the getter view '
+                          f"model.{spec['resolve']['prop']}[box]; re-solve at the same frequency (this call)")
+    return hit
+
+
+RESOLVE_TAG = ' (re-solve after an in-place model edit)'
+
+
+def _property_check(R, base):
+    v = R.var
+    cfg, spec = R.cfg, R.spec
     status = int(v.exit_message != 'CONVERGED')
     if R.info is not None and R.info['exit'] != status:
         return dict(signature='exit status is not int(message != CONVERGED)', **base)
@@ -718,6 +774,34 @@ def key_of(R):
             R.var.exit_message if R.var is not None and R.error is None else R.error)
 
 
+def resolve_block():
+    """Deterministic histories on ONE Model object: solve, in-place edit of property_x / property_z /
+    mu_r / epsilon_r through a getter view, re-solve at the same frequency -- with a fresh field, with the
+    previous solution supplied, or with a field pre-solved on the (same) model object; frequency and
+    Laplace domain; multigrid and Krylov."""
+    base = dict(shape=[4, 4, 4], hx=[1, 2, 1, 1.5], hy=[1, 1, 2, 1], hz=[2, 1, 1, 1], aniso=3, has_mu=True,
+                has_eps=True, freq=1.0, np_seed=21, src_exp=0)
+    lap = dict(base, shape=[4, 2, 6], hx=[1, 1, 1, 1], hy=[1, 2], hz=[1, 1, 2, 2, 1, 1], freq=-2.0, np_seed=22)
+    c0 = dict(sslsolver=False, cycle='F', semicoarsening=False, linerelaxation=False, nu_init=0, nu_pre=2,
+              nu_coarse=1, nu_post=2, clevel=-1, tol=1e-6, maxit=50, return_info=True, always_return=False)
+    edits = [dict(prop='property_x', value=100.0), dict(prop='property_z', factor=1 / 64.0),
+             dict(prop='mu_r', value=8.0), dict(prop='epsilon_r', value=4096.0)]
+    out = []
+    for i, ed in enumerate(edits):
+        for b_, sp in enumerate((base, lap)):
+            if ed['prop'] == 'epsilon_r' and b_ == 0:
+                sp = dict(sp, freq=float(2 ** 22))      # displacement part only matters at high frequency
+            e = dict(ed, box=default_box(sp['shape']))
+            cfgs = [(c0, 'fresh'), (dict(c0, return_info=(i % 2 == 0)), 'prev'),
+                    (dict(c0, sslsolver='bicgstab', semicoarsening=True, linerelaxation=True, tol=1e-5), 'fresh'),
+                    (dict(c0, always_return=True), 'good')]
+            for cfg, mode in cfgs:
+                out.append((dict(sp, resolve=e), cfg, mode, None))
+    # interleave so that the first entries cover different properties and modes
+    order = sorted(range(len(out)), key=lambda k: (k % 4, k // 4))
+    return [out[k] for k in order]
+
+
 def fixed_cases():
     s0 = dict(shape=[4, 4, 4], hx=[1, 2, 1, 1.5], hy=[1, 1, 2, 1], hz=[2, 1, 1, 1], aniso=0, has_mu=False,
               has_eps=False, freq=1.0, np_seed=11, src_exp=0)
@@ -736,6 +820,8 @@ def fixed_cases():
         out.append((dict(s0, nonpec={'face': face, 'which': which}), c0, 'good_nonpec'))
         out.append((dict(s1, nonpec={'face': face, 'which': which}),
                     dict(c0, sslsolver='bicgstab', tol=1e-4, return_info=False), 'good_nonpec'))
+    for spec_r, cfg_r, mode_r, _ in resolve_block()[:8]:
+        out.append((spec_r, cfg_r, mode_r))
     out.append((s0, dict(c0, maxit=1), 'fresh'))
     out.append((s0, dict(c0, maxit=2, semicoarsening=1213, linerelaxation=56), 'bad'))
     out.append((s0, dict(c0, tol=1e-30, maxit=50), 'fresh'))          # stagnation
@@ -756,6 +842,13 @@ def gen_cases(ctx, n):
             mode = 'good_nonpec'
             spec['nonpec'] = {'face': rng.choice(FACES), 'which': rng.choice(['both', 'first', 'second'])}
             spec['src_exp'] = 0
+        if mode in ('fresh', 'bad', 'good') and rng.random() < 0.08:
+            props = ['property_x'] + (['property_y'] if spec['aniso'] in (1, 3) else []) + \
+                    (['property_z'] if spec['aniso'] in (2, 3) else []) + (['mu_r'] if spec['has_mu'] else [])
+            spec['resolve'] = dict(prop=rng.choice(props), box=default_box(spec['shape']),
+                                   factor=rng.choice([64.0, 1 / 64.0]))
+            if rng.random() < 0.4:
+                mode = 'prev'
         cases.append((spec, rand_cfg(rng), mode))
     return cases
 
@@ -860,7 +953,7 @@ def nonpec_block():
 def targeted(ctx):
     s0 = fixed_cases()[0][0]
     c0 = fixed_cases()[0][1]
-    out = nonpec_block() + [(s0, c0, 'zero_supplied', None), (s0, dict(c0, always_return=True), 'zero_supplied', None),
+    out = resolve_block() + nonpec_block() + [(s0, c0, 'zero_supplied', None), (s0, dict(c0, always_return=True), 'zero_supplied', None),
            (s0, c0, 'zero_fresh', None)]
     for ssl in SOLVERS:
         for cyc in ('F', None):
@@ -898,7 +991,9 @@ def search(ctx, broken):
     ctx.notes.append(f"searcher: property evaluated on {len(cases)} real solver runs "
                      f"(targeted zero-source / Krylov cases first)")
     # most telling first: genuine-scipy hits before stub hits
-    prio = ['success with a non-PEC field',
+    prio = ['success reported but the independent residual exceeds tol*|source|' + RESOLVE_TAG,
+            'reported abs_error is not the residual of the field the caller holds' + RESOLVE_TAG,
+            'success with a non-PEC field',
             "zero source: success reported but the caller's field is not zero",
             'reported abs_error is not the residual of the field the caller holds',
             'success reported but the independent residual exceeds tol*|source|']
